@@ -1572,6 +1572,7 @@ func (enc *VP8Encoder) recordAllTokens(stats *ProbaStats) {
 		}
 
 		if info.Skip {
+			enc.tokens.MarkMBStart(it.MBIdx) // empty token range (see encodeFrame)
 			enc.numSkip++
 			enc.topNz[it.X] = 0
 			enc.leftNz = 0
